@@ -129,6 +129,12 @@ impl HeaderPrefix {
         max_table_size: usize,
     ) -> Result<(usize, usize), ParseError> {
         if max_table_size == 0 {
+            // Without a dynamic table (MaxEntries = 0) a non-zero Required Insert Count can
+            // never be satisfied (RFC 9204 4.5.1.1) and, with Required Insert Count 0, a sign
+            // bit of 1 means a negative Base (4.5.1.2).
+            if self.encoded_insert_count != 0 || self.sign_negative {
+                return Err(ParseError::InvalidBase(-1));
+            }
             return Ok((0, 0));
         }
 
